@@ -500,7 +500,10 @@ FSF = 'atomman/defect/FreeSurface.py'
 SFF = 'atomman/defect/StackingFault.py'
 mutant('C14', 'h0l arm vector flipped', FSBF, "a_uvw = np.array([m / hkl[0], 0, -m / hkl[2]], dtype=int)", "a_uvw = np.array([-m / hkl[0], 0, m / hkl[2]], dtype=int)", 'PLANE-TABLE')
 mutant('C14', '0kl sign from k only', FSBF, "s = np.sign(hkl[1] * hkl[2])", "s = np.sign(hkl[1])", 'PLANE-TABLE')
-mutant('C14', 'out-of-plane search starts at 180', FSBF, "c_angle = 90", "c_angle = 180", 'SEARCH')
+benign('C14', 'out-of-plane search starts at 180 (both v and -v are candidates, the minimum angle is the same)', FSBF, "c_angle = 90", "c_angle = 180")
+mutant('C14', 'first in-plane vector: longest instead of shortest', FSBF, "            if mag < a_mag:\n                a_uvw = uvw", "            if mag > a_mag or a_uvw is None:\n                a_uvw = uvw", 'SEARCH')
+mutant('C14', 'out-of-plane vector: largest angle', FSBF, "        elif angle < c_angle:", "        elif angle > c_angle or c_uvw is None:", 'SEARCH')
+benign('C14', 'in-plane test via explicit tolerance', FSBF, "        if np.isclose(np.dot(cart, planenormal), 0.0):\n            if mag < a_mag:", "        if np.isclose(cart.dot(planenormal), 0.0):\n            if mag < a_mag:")
 mutant('C14', 'handedness test dropped', FSBF, "if np.dot(np.cross(a_cart, cart), planenormal) > 0:", "if True:", 'SEARCH')
 mutant('C14', 'cutboxvector b rows not cyclic', FSBF, "uvws = np.array([b_uvw, c_uvw, a_uvw])", "uvws = np.array([a_uvw, c_uvw, b_uvw])", 'SEARCH')
 mutant('C14', 'cut a refusal weakened', FSF, "if rcell.box.bvect[0] != 0.0 or rcell.box.cvect[0] != 0.0:", "if rcell.box.bvect[0] != 0.0 and rcell.box.cvect[0] != 0.0:", 'FREE-SURFACE')
